@@ -15,4 +15,13 @@ open Qlibc.Generated.Shapes
     arguments (and the container) only, also when several threads are inside at once -/
 theorem no_hidden_static_state : strStatics = [] := by decide
 
+/-- the formatting macro DYNAMIC_VSPRINTF behind `qstrdupf` / `qstrcatf` is the loop the model
+    `Str.dynVsprintf` transcribes: a first block of 1024 bytes, doubled until `vsnprintf` reports a length
+    below the block size (so the text fits WITH its terminator, for every length - Props: fmt_total /
+    dupf_eq). The third part pins the whole macro text: any rewrite (another start size, sizing the
+    retry from the reported length, another exit test) has to be transcribed into the model first. -/
+theorem fmt_macro_as_modelled : fmtInitSize = 1024 ∧ fmtGrowFactor = 2 ∧
+    fmtMacroText = "(s, f) do { size_t _strsize; for (_strsize = 1024; ; _strsize *= 2) { s = (char*)malloc(_strsize); if (s == NULL) { DEBUG(\"DYNAMIC_VSPRINTF(): can't allocate memory.\"); break; } va_list _arglist; va_start(_arglist, f); int _n = vsnprintf(s, _strsize, f, _arglist); va_end(_arglist); if (_n >= 0 && _n < _strsize) break; free(s); } } while(0)" :=
+  ⟨by decide, by decide, rfl⟩
+
 end Qlibc.Shapes.Str
